@@ -117,9 +117,21 @@ class Schema:
         self._spec[ci] = out
         return out
 
+    @staticmethod
+    def _materialise(v):
+        """the groups a table built by an itertools combinator over constants denotes (what the FIRST iteration yields;
+        that such a table is a one-shot iterator is reported by E-R7)"""
+        from .source import Call as _Call, Ext as _Ext
+        import itertools as _it
+
+        if isinstance(v, _Call) and isinstance(v.func, _Ext) and v.func.name in ("itertools.combinations", "itertools.permutations", "combinations", "permutations") and len(v.args) == 2 and isinstance(v.args[0], (list, tuple)) and isinstance(v.args[1], int) and all(isinstance(x, str) for x in v.args[0]):
+            fn_ = _it.combinations if "combinations" in v.func.name else _it.permutations
+            return [list(g) for g in fn_(list(v.args[0]), v.args[1])]
+        return v
+
     def mutexes(self, ci: ClassInfo, which: str):
         """effective (MRO-resolved) value of optionalMutexes / requiredMutexes"""
-        v = ci.lookup(which)
+        v = self._materialise(ci.lookup(which))
         if v is None:
             return []
         if not isinstance(v, (list, tuple)):
@@ -134,7 +146,7 @@ class Schema:
     def own_mutexes(self, ci: ClassInfo, which: str):
         if which not in ci.attrs:
             return None
-        v = ci.own(which)
+        v = self._materialise(ci.own(which))
         if not isinstance(v, (list, tuple)):
             raise AnalysisError(f"{ci.name}.{which} is not a literal list: {v!r}")
         return [list(g) for g in v]
